@@ -1,0 +1,11 @@
+//go:build verif
+
+package debugger
+
+// VerifExportData exposes hExportData to the verification harness. In
+// production builds the export is reachable only through the done-func of the
+// export dialog; the harness drives a headless debugger and has no dialog to
+// press. No behaviour change: the method is a plain forwarder.
+func (d *Debugger) VerifExportData(filename string, snapshot bool) {
+	d.hExportData(filename, snapshot)
+}
